@@ -434,7 +434,10 @@ def Graph.directedCycle (g : Graph) : Outcome DC :=
     { visited := Array.replicate g.n false, edgeTo := Array.replicate g.n 0,
       onStack := Array.replicate g.n false }
 
-/-- `func (c *DirectedCycle) Cycle() ([]int, bool)` (first call; it empties the stack) -/
+/-- `func (c *DirectedCycle) Cycle() ([]int, bool)`: pops the stack into a slice and pushes the vertices
+back (since fix f332c7a), so every call returns the same list; `none` = `(nil, false)`.  The pop/push-back
+round trip is not modelled step by step (it is the identity on the abstract stack); that repeated calls agree
+is tested by the harness only. -/
 def DC.cycleList (c : DC) : Option (List Nat) := c.cycle
 
 /-! ## Topological -/
@@ -449,7 +452,8 @@ def rankLoop : List Nat → Nat → Array Nat → Outcome (Array Nat)
   | [], _, rank => .ok rank
   | v :: vs, i, rank => if v < rank.size then rankLoop vs (i + 1) (rank.set! v i) else .panic
 
-/-- `func (g *Directed) Topological() *Topological` -/
+/-- `func (g *Directed) Topological() *Topological`.  `Order()` returns a copy of `t.order` (fix f332c7a); the
+Model's values cannot alias, so the copy itself is not modelled — tested by the harness only. -/
 def Graph.topological (g : Graph) : Outcome Topological :=
   match g.directedCycle with
   | .panic => .panic
